@@ -81,10 +81,7 @@ type lb struct {
 }
 
 func newLB(targets []string) *lb {
-	ln, err := net.Listen("tcp", "127.0.0.1:0")
-	if err != nil {
-		panic(err)
-	}
+	ln := listenLoopback()
 	l := &lb{ln: ln, targets: targets, alive: make([]bool, len(targets)), pin: -1}
 	for i := range l.alive {
 		l.alive[i] = true
@@ -199,6 +196,27 @@ type nodeEngine struct {
 
 var resetMs int
 
+// loopIP is this process's own loopback address (all of 127.0.0.0/8 is loopback on Linux).
+// Every harness process uses node ids n0, n1, ... and ephemeral ports; on a shared address a
+// port freed by one cluster is reused by another while nodes of the first still gossip to it
+// (piko keeps gossiping with unreachable peers), and the two clusters contaminate each other.
+// A per-process address keeps the clusters apart.
+var loopIP = fmt.Sprintf("127.%d.%d.1", 1+(os.Getpid()>>8)%250, 1+os.Getpid()%250)
+
+// listenLoopback opens a TCP listener on an ephemeral loopback port, retrying while the box is
+// short of ephemeral ports (many harnesses run side by side).
+func listenLoopback() net.Listener {
+	var err error
+	for i := 0; i < 200; i++ {
+		var ln net.Listener
+		if ln, err = net.Listen("tcp", loopIP+":0"); err == nil {
+			return ln
+		}
+		time.Sleep(25 * time.Millisecond)
+	}
+	panic(err)
+}
+
 // New returns the engine.
 func New() Engine { return &nodeEngine{} }
 
@@ -248,23 +266,33 @@ func (e *nodeEngine) startNodes(n int) bool {
 	var gossipAddrs []string
 	for i := 0; i < n; i++ {
 		conf := config.Default()
-		conf.Proxy.BindAddr = "127.0.0.1:0"
-		conf.Upstream.BindAddr = "127.0.0.1:0"
-		conf.Admin.BindAddr = "127.0.0.1:0"
+		conf.Proxy.BindAddr = loopIP + ":0"
+		conf.Upstream.BindAddr = loopIP + ":0"
+		conf.Admin.BindAddr = loopIP + ":0"
 		conf.Cluster.NodeID = fmt.Sprintf("n%d", i)
 		conf.Cluster.Join = append([]string(nil), gossipAddrs...)
-		conf.Cluster.Gossip.BindAddr = "127.0.0.1:0"
+		conf.Cluster.Gossip.BindAddr = loopIP + ":0"
 		conf.Cluster.Gossip.Interval = gossipInterval
 		conf.Cluster.AbortIfJoinFails = false
 		conf.Cluster.JoinTimeout = 30 * time.Second
 		conf.GracePeriod = gracePeriod
 		conf.Proxy.AccessLog.Disable = true
-		s, err := server.NewServer(conf, log.NewNopLogger())
-		if err != nil {
-			panic("server: " + err.Error())
-		}
-		if err := s.Start(); err != nil {
-			panic("start: " + err.Error())
+		var s *server.Server
+		var err error
+		for try := 0; ; try++ {
+			// NewServer binds the three TCP ports, Start the gossip ports: retried while the box
+			// is short of ephemeral ports
+			if s, err = server.NewServer(conf, log.NewNopLogger()); err == nil {
+				if err = s.Start(); err == nil {
+					break
+				}
+			}
+			if try > 100 || !strings.Contains(err.Error(), "address already in use") {
+				panic("server: " + err.Error())
+			}
+			conf.Proxy.AdvertiseAddr, conf.Upstream.AdvertiseAddr, conf.Admin.AdvertiseAddr = "", "", ""
+			conf.Cluster.Gossip.AdvertiseAddr = ""
+			time.Sleep(50 * time.Millisecond)
 		}
 		gossipAddrs = append(gossipAddrs, s.Config().Cluster.Gossip.AdvertiseAddr)
 		e.nodes = append(e.nodes, &nd{idx: i, id: conf.Cluster.NodeID, srv: s, alive: true})
@@ -810,15 +838,9 @@ func newRig() *rig {
 	cs := cluster.NewState(&cluster.Node{ID: "rig", ProxyAddr: "10.0.0.1:8000", AdminAddr: "10.0.0.1:8002"}, log.NewNopLogger())
 	m := &countMgr{LoadBalancedManager: upstream.NewLoadBalancedManager(cs, nil)}
 	srv := upstream.NewServer(m, nil, nil, cs, config.UpstreamConfig{}, log.NewNopLogger())
-	ln, err := net.Listen("tcp", "127.0.0.1:0")
-	if err != nil {
-		panic(err)
-	}
+	ln := listenLoopback()
 	go func() { _ = srv.Serve(ln) }()
-	rl, err := net.Listen("tcp", "127.0.0.1:0")
-	if err != nil {
-		panic(err)
-	}
+	rl := listenLoopback()
 	r := &rig{srv: srv, mgr: m, ln: ln, rl: rl}
 	go func() {
 		for {
@@ -999,10 +1021,7 @@ type procNode struct {
 }
 
 func freePort() string {
-	ln, err := net.Listen("tcp", "127.0.0.1:0")
-	if err != nil {
-		panic(err)
-	}
+	ln := listenLoopback()
 	defer ln.Close()
 	return ln.Addr().String()
 }
